@@ -5,4 +5,5 @@ PROPERTY WantLeadsToRun
 CHECK_DEADLOCK FALSE
 CONSTANTS
   UnlockFirst = TRUE
+  WithMap = FALSE
   KeepHist = FALSE
